@@ -8,6 +8,8 @@ Record case := mk_case {
   c_init : list ev;
   c_prog : list (N * list (N * N * bool));
   c_fuel : nat;                                (* > number of events *)
+  c_pre : list ev;                             (* scheduled by a controller goroutine while the engine is paused, before Run starts *)
+  c_mid : bool;                                (* a controller paused / injected at CurrentTime() / continued during the run *)
   o_trace : list lbl;
   o_done : bool;                               (* Run returned *)
   o_panic : bool                               (* Run or a handler panicked *)
@@ -31,6 +33,7 @@ Fixpoint seg (t : N) (sec : bool) (tostart open : list N) (tr : list lbl) : opti
       | LEnd e :: r =>
           if memN (ev_id e) open then seg t sec tostart (removeN (ev_id e) open) r else None
       | LSched _ _ :: r => seg t sec tostart open r
+      | LInject _ :: r => seg t sec tostart open r
       end
   end.
 
@@ -46,10 +49,21 @@ Fixpoint segments_ok (rs : list (N * bool * list N)) (tr : list lbl) : bool :=
 
 (** model prediction = observation: the deterministic round structure is found
     in the log, the log is accepted by the verified acceptor, the run ends. *)
+Fixpoint injected (tr : list lbl) : list ev :=
+  match tr with [] => [] | LInject c :: r => c :: injected r | _ :: r => injected r end.
+
+Fixpoint drop_injects (tr : list lbl) : list lbl :=
+  match tr with [] => [] | LInject _ :: r => drop_injects r | l :: r => l :: drop_injects r end.
+
 Definition check_case (c : case) : bool :=
   let prog := prog_lookup (c_prog c) in
-  segments_ok (rounds (c_fuel c) prog (c_init c)) (o_trace c) &&
+  (* the round structure is schedule-independent unless a controller injects at unknown moments *)
+  (if c_mid c then true
+   else segments_ok (rounds (c_fuel c) prog (c_init c ++ c_pre c)) (drop_injects (o_trace c)) &&
+        list_eqb ev_eqb (injected (o_trace c)) (c_pre c)) &&
+  (* c04_no_overlap_across_times, c04_phase_guaranteed: every model trace is accepted *)
   par_trace_ok (c_init c) (o_trace c) &&
+  phase_guaranteed_ok (c_init c) (o_trace c) &&
   o_done c && negb (o_panic c).
 
 (** ** the property on the observed log *)
@@ -82,7 +96,7 @@ Definition holds_on (c : case) : bool :=
   o_done c && negb (o_panic c) &&
   (* every scheduled event handled exactly once *)
   brackets_ok [] (o_trace c) &&
-  listN_eqb (sortN (ended (o_trace c))) (sortN (closure (c_fuel c) prog (c_init c))) &&
+  listN_eqb (sortN (ended (o_trace c))) (sortN (closure (c_fuel c) prog (c_init c ++ injected (o_trace c)))) &&
   (* no event starts while an earlier one is unfinished; rounds do not mix times / phases *)
   par_trace_ok (c_init c) (o_trace c) &&
   (* no secondary starts while a primary of its instant is scheduled and unfinished *)
